@@ -329,11 +329,19 @@ impl<'a> Tr<'a> {
         // `let p = s.as_ptr();` / `s.as_mut_ptr()`: remember what p points into
         if let (Pat::Ident(pi), Expr::MethodCall(m)) = (pat, peel(&init.expr)) {
             let mn = m.method.to_string();
-            if (mn == "as_ptr" || mn == "as_mut_ptr") && m.args.is_empty() {
-                let s = self.expr(&m.receiver, None)?;
-                if s.pre.is_empty() && !s.diverges {
-                    self.ptr_alias.insert(pi.ident.to_string(), (s.term, s.ty));
-                    return Ok(false);
+            if matches!(mn.as_str(), "as_ptr" | "as_mut_ptr" | "add" | "offset" | "cast") {
+                if let Some((s, off)) = self.ptr_pattern(&init.expr)? {
+                    if s.pre.is_empty() && !s.diverges {
+                        let offt = match off {
+                            Some(o) => {
+                                lines.extend(o.pre);
+                                Some(o.term)
+                            }
+                            None => None,
+                        };
+                        self.ptr_alias.insert(pi.ident.to_string(), (s.term, s.ty, offt));
+                        return Ok(false);
+                    }
                 }
             }
         }
@@ -490,7 +498,8 @@ impl<'a> Tr<'a> {
                 match (&bt, &f.member) {
                     (Ty::Adt(n), m) => {
                         let (fname, _) = self.field_of(n, m, place.span())?;
-                        self.assign_place(&f.base, format!("{{ {} with {} := {} }}", base.term, fname, v), false, lines)
+                        let tyasc = self.ph("lty", &[&base.ty]);
+                        self.assign_place(&f.base, format!("({{ {} with {} := {} }} : {})", base.term, fname, v, tyasc), false, lines)
                     }
                     _ => self.err(place.span(), "unsupported field assignment"),
                 }
